@@ -3,8 +3,8 @@
    trees are immutable values, so "states reached earlier are never altered" holds in the model by construction; for the
    implementation it is the clone_from_root discipline, checked by the `walks` suite (snapshots of all earlier roots). *)
 From Coq Require Import List NArith ZArith QArith Reals Bool.
-From Mathy Require Import Num Expr Util Rules Sem Walk.
-From MathyProofs Require Import SemFacts RulesSoundA RulesSoundD WalkFacts.
+From Mathy Require Import Num Expr Util Rules Sem Walk Heap Plans HeapPlan.
+From MathyProofs Require Import SemFacts RulesSoundA RulesSoundD WalkFacts HeapFacts HeapPlanFacts HeapPlanSeq HeapSearch.
 Import ListNotations.
 
 (* expressions: after any finite sequence of applicable rewrites the value is preserved wherever the start is defined *)
@@ -29,6 +29,20 @@ Print Assumptions C09_walk_equation.
 
 (* non-vacuity: 2x + 3x = 10  --factor-->  (2 + 3) * x = 10  --fold-->  5 * x = 10  --balanced-->  (5 * x) / 5 = 10 / 5 *)
 Definition x := Var 120%N. Definition c (z:Z) := Const (NInt z).
+(* "States reached earlier in the sequence are never altered by later steps", at heap level. The loop of a search agent: clone the
+   current tree from its root (through ANY node of it: `pick`), rewrite the copy, continue from the copy. From a heap that holds the
+   current tree with consistent links (wf_tree) and scratch fields at rest, after any sequence of applicable steps the final tree is
+   well-formed and is the expression the expression-level model computes, and EVERYTHING that stood in the heap at the start - hence,
+   by the same theorem from each intermediate heap, every tree reached on the way - still stands at the end with the same objects,
+   links and payloads (C13's rep). all_ok excludes only the rotation that makes the node itself the root (C15_heap_rotate_root). *)
+Theorem C09_earlier_states_stand : forall (pick : heap -> iexpr -> nat), (forall h T, In (pick h T) (iaddrs T)) ->
+  forall steps h T final,
+  wf_tree h T -> dead_tree h T -> run (ierase T) steps = Some final -> all_ok (ierase T) steps = true ->
+  exists h' T', Sreach pick h T steps h' T' /\ wf_tree h' T' /\ dead_tree h' T' /\ ierase T' = final /\
+    (forall a0 p0 t0, rep h (Some a0) p0 t0 -> rep h' (Some a0) p0 t0).
+Proof. exact search_loop. Qed.
+Print Assumptions C09_earlier_states_stand.
+
 Example C09_example :
   run (Bin KEq (Bin KAdd (Bin KMul (c 2) x) (Bin KMul (c 3) x)) (c 10))
       [(RFactor false, [DL]); (RConst, [DL; DL]); (RBalanced, [DL; DL])]
